@@ -94,6 +94,57 @@ pub fn structured_cases(rng: &mut ChaCha8Rng, count: usize) -> Vec<Value> {
     out
 }
 
+/// Trees with very uneven levels: a star with a tail (broom), two stars joined by a path, a caterpillar.
+/// A level-synchronous search meets a level much wider than what is left to find.  Paths are unique.
+pub fn broom_cases(rng: &mut ChaCha8Rng, count: usize, minn: i32, maxn: i32) -> Vec<Value> {
+    let mut out = vec![];
+    for i in 0..count {
+        let n = rng.gen_range(minn.max(6)..=maxn.max(6));
+        let directed = i % 2 == 1;
+        let mut es: Vec<(i32, i32)> = vec![];
+        match i % 3 {
+            0 => {
+                // broom: centre 1, tail 2..=t+1 hanging off the centre, the rest leaves
+                let t = rng.gen_range(2..=4.min(n - 3));
+                es.push((1, 2));
+                for a in 2..=t { es.push((a, a + 1)); }
+                for leaf in (t + 2)..=n { es.push((1, leaf)); }
+            }
+            1 => {
+                // two stars joined by a path of length 3
+                let half = (n - 2) / 2;
+                es.push((1, 2)); es.push((2, 3)); es.push((3, 4));
+                for leaf in 5..(5 + half - 1) { es.push((1, leaf)); }
+                for leaf in (5 + half - 1)..=n { es.push((4, leaf)); }
+            }
+            _ => {
+                // caterpillar: spine 1..=s, the other nodes hang off spine nodes, most of them off the first
+                let s_len = rng.gen_range(3..=5.min(n - 2));
+                for a in 1..s_len { es.push((a, a + 1)); }
+                for leaf in (s_len + 1)..=n { es.push((if leaf % 4 == 0 { rng.gen_range(1..=s_len) } else { 1 }, leaf)); }
+            }
+        }
+        let w: i64 = if i % 4 == 0 { 2 } else { NAN_W };
+        let mut names: Vec<i32> = (1..=n).collect();
+        names.shuffle(rng);
+        // a random relabelling, so that insertion order, name order and distance from the hub are unrelated
+        let mut relabel: Vec<i32> = (1..=n).collect();
+        relabel.shuffle(rng);
+        let mut ea: Vec<EdgeArg> = es
+            .into_iter()
+            .map(|(u, v)| {
+                let (a, b) = (relabel[(u - 1) as usize], relabel[(v - 1) as usize]);
+                let (a, b) = if directed && rng.gen_bool(0.3) { (b, a) } else { (a, b) };
+                (a, b, if w == NAN_W { NAN_W } else { rng.gen_range(1..=3) }, 0)
+            })
+            .collect();
+        ea.shuffle(rng);
+        let specs = SpecsJ { directed, multi: false, loops: false, dedupe: 2, missing: 0, loopfalse: 1 };
+        out.push(case_json(specs, &[Op::AddNodes(names.into_iter().map(|x| (x, 0)).collect()), Op::AddEdges(ea)], "broom"));
+    }
+    out
+}
+
 /// Random forests with more than 20 nodes (the parallel code path): shortest paths are
 /// unique, so betweenness values are integers or halves and closeness values have small
 /// denominators - the specification's 32-bit rationals can judge them.
